@@ -6,7 +6,7 @@ LEVEL = "model_checking"
 
 def scenarios(tier, seed):
     return fam_expr.family_E(tier, seed) + fam_expr.family_S(tier, seed) + fam_expr.family_Q(tier, seed) + fam_expr.family_Wd(tier, seed) + fam_expr.family_G(tier, seed) + fam_expr.family_K(tier, seed) + \
-        [x for x in fam_list.family_fixed(tier, seed) if any(k in x["id"] for k in ("/expr_elem/", "/index/", "/fe_sorted/", "/fe_idx/"))] + \
+        [x for x in fam_list.family_fixed(tier, seed) if any(k in x["id"] for k in ("/expr_elem/", "/index/", "/fe_sorted/", "/fe_idx/", "/idx_merge/"))] + \
         fam_hist.family_H(tier, seed, n=8 if tier == "quick" else 120) + \
         fam_tree.family_T(tier, seed, n=6 if tier == "quick" else 80, probes=True, tag="T01") + fam_tree.family_nonrand_member(tier, seed)
 
